@@ -12,7 +12,7 @@ PTR = {"memory": 1, "hybrid-mem": 1, "hybrid-shared-mem": 1, "redis": 0, "hybrid
 INCL = {"memory": 1, "hybrid-mem": 1, "hybrid-shared-mem": 1, "redis": 0, "hybrid-redis": 0}    # readable at exactly the deadline (never observed)
 
 CONNECT, AUTHOK, AUTHFAIL, KICK, HEARTBEAT, CLOSE, TICK, STALE, SREG, SUNREG, SREFRESH = 0, 1, 2, 3, 4, 5, 6, 7, 10, 11, 12
-SIDE_CONDITIONS = 7   # lemmas of Proofs/SideC08.v
+SIDE_CONDITIONS = 9   # lemmas of Proofs/SideC08.v
 
 
 def mk(mode, backend, ops, nodes, clients, tag=""):
@@ -28,6 +28,20 @@ def tick(rng, budget):
     d = min(d, budget[0])
     budget[0] -= d
     return [TICK, d] if d > 0 else None
+
+
+CONTROL_SHAPES = [k for k in range(32) if k >= 16 or k % 4 != 2]
+TUNNEL_SHAPES = [k for k in range(32) if k < 16 and k % 4 == 2]
+
+
+def rand_shape(rng):
+    """handshake request shape: mostly what the in-tree client sends, often a legacy / odd but accepted one, sometimes tunnel-typed"""
+    r = rng.random()
+    if r < 0.45:
+        return 0
+    if r < 0.88:
+        return rng.choice(CONTROL_SHAPES)
+    return rng.choice(TUNNEL_SHAPES)
 
 
 def session_history(rng, nodes, clients, length):
@@ -73,11 +87,13 @@ def session_history(rng, nodes, clients, length):
             r = rng.random()
             x = rng.choice(clients)
             if r < 0.75:
-                if rng.random() < 0.4:
+                sh = rand_shape(rng)
+                if rng.random() < 0.4 and sh in CONTROL_SHAPES:
                     ops.append([KICK, n, x, c])
                     kick(n, x, c)
-                ops.append([AUTHOK, n, c, x])
-                login(n, c, x)
+                ops.append([AUTHOK, n, c, x, sh])
+                if sh in CONTROL_SHAPES:
+                    login(n, c, x)
             elif r < 0.87:
                 # the auth handler kicked the old connection but the login did not complete (response lost / rejected)
                 ops.append([KICK, n, x, c])
@@ -90,8 +106,10 @@ def session_history(rng, nodes, clients, length):
             if rng.random() < 0.25:
                 ops.append([AUTHFAIL, n, c, x])
             else:
-                ops.append([AUTHOK, n, c, x])
-                login(n, c, x)
+                sh = rand_shape(rng)
+                ops.append([AUTHOK, n, c, x, sh])
+                if sh in CONTROL_SHAPES:
+                    login(n, c, x)
         elif k < 0.54:
             if current and rng.random() < 0.7:
                 n, c = current[rng.choice(sorted(current))]
@@ -181,6 +199,15 @@ def scripted(rng):
     # kicked by a login that never completes, then the kicked connection is closed: not connected
     out.append(("kick-without-login", [[CONNECT, 1, 1], [AUTHOK, 1, 1, x], [CONNECT, 1, 2], [KICK, 1, x, 2], [AUTHFAIL, 1, 2, x],
                                        [CLOSE, 1, 1], [TICK, 1], [CLOSE, 1, 2]]))
+    # every handshake request shape the server accepts as a control connection: legacy clients that omit connection_type /
+    # version / protocol, another spelling, an empty payload — reconnect on the other node with that shape, keep it alive
+    for sh in CONTROL_SHAPES:
+        out.append(("request-shape-%d" % sh, [[CONNECT, 1, 1], [AUTHOK, 1, 1, x, 0], [CONNECT, 2, 2], [AUTHOK, 2, 2, x, sh],
+                                               [CLOSE, 1, 1], [TICK, 2], [HEARTBEAT, 2, 2], [TICK, 2], [CLOSE, 2, 2]]))
+    # tunnel-typed handshakes never create (or move) a client index
+    for sh in TUNNEL_SHAPES:
+        out.append(("tunnel-shape-%d" % sh, [[CONNECT, 1, 1], [AUTHOK, 1, 1, x, sh], [CONNECT, 2, 2], [AUTHOK, 2, 2, x, 0],
+                                             [CONNECT, 1, 3], [AUTHOK, 1, 3, x, sh], [HEARTBEAT, 1, 3], [TICK, 2], [HEARTBEAT, 2, 2], [TICK, 2]]))
     # three nodes, ping-pong, cleanups in reverse order
     out.append(("three-nodes", [[CONNECT, 1, 1], [AUTHOK, 1, 1, x], [CONNECT, 2, 2], [AUTHOK, 2, 2, x], [CONNECT, 3, 3],
                                 [AUTHOK, 3, 3, x], [CLOSE, 2, 2], [HEARTBEAT, 3, 3], [TICK, 2], [CLOSE, 1, 1],
@@ -298,7 +325,9 @@ def gen_cases(ctx, thorough):
     rng = ctx.rng
     cases = []
     for backend in BACKENDS:
-        for tag, ops in scripted(rng):
+        for k, (tag, ops) in enumerate(scripted(rng)):
+            if "-shape-" in tag and not thorough and tag != "request-shape-1" and BACKENDS[k % len(BACKENDS)] != backend:
+                continue   # quick: every request shape on one backend (rotating), the legacy shape on all of them
             cases.append(mk("session", backend, ops, 3, [7, 8], tag))
         for tag, ops in store_scripted():
             cases.append(mk("store", backend, ops, 2, [7, 8], tag))
